@@ -137,7 +137,75 @@ def run_conversions(chk, tier):
                       "  Qle_bool (Qabs (want - got)%%Q) ((Qmake 1 10000000000000) * Qabs want)%%Q.\n"
                       "Definition cs := %s.\nEval vm_compute in (bad agrees cs).\n" % (facs_l, cm.clist(items[k:k + CH])))
         index.append(k)
-    for k, (rc, out) in zip(index, cm.coq_eval(PID, shards)):
+    # lengths (all 7 x 7 pairs through the manager's converters) and array elements including exact zeros (all 11 units, both directions)
+    from quantarhei.core.units import conversion_facs_length
+    m = qr.Manager()
+    lfacs = [conversion_facs_length[u] for u in LU]
+    litems, lmeta = [], []
+    for ui, u in enumerate(LU):
+        for vi, v in enumerate(LU):
+            x = float(r.choice([0.75, 1.5, 12.25, 333.0, 0.03125]))
+            c = {"kind": "conv_length", "u": u, "v": v, "x": x}
+            try:
+                with qr.length_units(u):
+                    y = m.convert_length_2_internal_u(x)
+                with qr.length_units(v):
+                    got = float(m.convert_length_2_current_u(y))
+            except Exception as e:
+                chk.violation("conversion:exception:length", "length conversion %s -> %s raised %r" % (u, v, e), "monitor", c)
+                continue
+            want = x * lfacs[ui] / lfacs[vi]
+            if not (abs(got - want) <= 1e-12 * abs(want)):
+                chk.violation("conversion:wrong:length", "%r supplied in %s reads %r in %s, exact conversion is %r" % (x, u, got, v, want), "monitor", c)
+            litems.append("(%d%%nat, %d%%nat, %s, %s)" % (ui, vi, cm.qlit(x), cm.qlit(got)))
+            lmeta.append(c)
+            chk.count("accessor:length converters")
+            chk.case(("conv_length", u, v, x), u != v)
+    eitems, emeta = [], []
+    for ui, u in enumerate(EU):
+        for direction in (0, 1):
+            arr = numpy.array([0.0, float(r.choice([0.75, 12.25, 1517.5])), 0.0, -float(r.choice([1.5, 333.0]))])
+            c = {"kind": "conv_array", "u": u, "direction": "to internal" if direction == 0 else "to current", "x": arr.tolist()}
+            try:
+                with qr.energy_units(u):
+                    got = m.convert_energy_2_internal_u(arr) if direction == 0 else m.convert_energy_2_current_u(arr)
+                got = [float(z) for z in got]
+            except Exception as e:
+                chk.violation("conversion:exception:array", "array conversion (%s) in %s raised %r" % (c["direction"], u, e), "monitor", c)
+                continue
+            for x, g in zip(arr.tolist(), got):
+                if x == 0.0 and g != 0.0:
+                    chk.violation("conversion:array_zero", "a zero element converts to %r in %s (%s)" % (g, u, c["direction"]), "monitor", c)
+                eitems.append("(%d%%nat, %d%%nat, %s, %s)" % (ui, direction, cm.qlit(x), cm.qlit(g)))
+                emeta.append(c)
+            chk.count("accessor:array elements")
+            chk.case(("conv_array", u, direction, tuple(arr.tolist())), True)
+    extra = (cm.HEADER + "From QV Require Import Base.Util Model.C05.\n"
+             "Definition lfacs : list Q := %s.\nDefinition efacs : list Q := %s.\n"
+             "Definition lidx (u : lunit) : nat := fst (fold_left (fun '(k, i) y => if lunit_eqb y u then (i, S i) else (k, S i)) all_lunits (0%%nat, 0%%nat)).\n"
+             "Definition eidx (u : eunit) : nat := fst (fold_left (fun '(k, i) y => if eunit_eqb y u then (i, S i) else (k, S i)) all_eunits (0%%nat, 0%%nat)).\n"
+             "Definition facl (u : lunit) : Q := nth (lidx u) lfacs (Qmake 1 1).\nDefinition face (u : eunit) : Q := nth (eidx u) efacs (Qmake 1 1).\n"
+             "Definition close (want got : Q) : bool := Qle_bool (Qabs (want - got)%%Q) ((Qmake 1 10000000000000) * Qabs want)%%Q.\n"
+             "Definition lagrees (c : nat * nat * Q * Q) : bool :=\n"
+             "  let '(ui, vi, x, got) := c in close (Qred (convert_l facl (nth ui all_lunits L_int) (nth vi all_lunits L_int) x)) got.\n"
+             "Definition eagrees (c : nat * nat * Q * Q) : bool :=\n"
+             "  let '(ui, d, x, got) := c in let u := nth ui all_eunits E_int in\n"
+             "  close (Qred (match d with O => to_int_elt face u x | _ => to_cur_elt face u x end)) got.\n"
+             "Definition lcs := %s.\nDefinition ecs := %s.\nEval vm_compute in (bad lagrees lcs).\nEval vm_compute in (bad eagrees ecs).\n"
+             % (cm.clist([cm.qlit(f) for f in lfacs]), facs_l, cm.clist(litems), cm.clist(eitems)))
+    results = cm.coq_eval(PID, shards + [extra])
+    rc, out = results[-1]
+    if rc != 0:
+        chk.violation("correspondence:coq_error", "coqc failed on length / array conversion cases: %s" % out[-800:], "correspondence", {}, found_input=False)
+    else:
+        vals = cm.parse_evals(out)
+        for badl, mt, what in ((cm.parse_natlist(vals[0]), lmeta, "convert_l"), (cm.parse_natlist(vals[1]), emeta, "to_int_elt / to_cur_elt")):
+            chk.corr["cases"] += len(mt)
+            chk.corr["disagreements"] += len(badl)
+            for i in badl[:3]:
+                chk.violation("correspondence:conversion:" + what.split(" ")[0], "implementation differs from Model.C05.%s on %s" % (what, json.dumps(mt[i])),
+                              "correspondence", mt[i], found_input=False)
+    for k, (rc, out) in zip(index, results[:-1]):
         if rc != 0:
             chk.violation("correspondence:coq_error", "coqc failed on conversion cases: %s" % out[-800:], "correspondence", {}, found_input=False)
             continue
